@@ -175,16 +175,75 @@ class LeanLock:
         self.f.close()
 
 
-def run_extractor(ctx: Ctx, wanted: Optional[List[str]] = None) -> None:
+# Extractor items that assert a *shape* of the source (they emit no Lean definition that a theorem could depend on): the
+# properties whose models rely on that shape.  An item that is not listed here and whose name is no Lean identifier either is
+# attributed conservatively to every property that lists its file.
+SHAPE_OWNERS = {
+    "sendDataChunk": ["C08", "C09"], "bufferPopLength": ["C08", "C09"], "bufferComplete/sendDataEnds": ["C08", "C09"],
+    "exitPath": ["C14", "C15", "C18"], "asyncioExitPath": ["C14", "C15", "C18"], "trioExitPath": ["C14", "C15", "C18"],
+}
+
+
+def _lean_closure(modules: List[str]) -> Dict[str, str]:
+    """module name -> source, for the import closure of `modules` inside lean/HC and lean/Driver"""
+    out: Dict[str, str] = {}
+    todo = list(modules)
+    while todo:
+        m = todo.pop()
+        if m in out:
+            continue
+        f = LEAN / (m.replace(".", "/") + ".lean")
+        if not f.exists():
+            continue
+        src = f.read_text()
+        out[m] = src
+        todo += re.findall(r"^import (\S+)", src, re.M)
+    return out
+
+
+def _all_lean_sources() -> Dict[str, str]:
+    return {str(f.relative_to(LEAN))[:-5].replace("/", "."): f.read_text() for d in ("HC", "Driver") for f in (LEAN / d).rglob("*.lean")}
+
+
+def extractor_item_relevant(pid: str, item: str, closure: Dict[str, str], everything: Dict[str, str]) -> bool:
+    """does a failed extractor item concern this property?  Yes when a model / theorem in the property's import closure uses
+    the definition the item would have produced, or when the item is a shape assertion this property's model relies on."""
+    key = item.strip()
+    if key in SHAPE_OWNERS:
+        return pid in SHAPE_OWNERS[key]
+    names = [n for n in re.split(r"[/\s]+", key) if re.fullmatch(r"[A-Za-z_][A-Za-z0-9_']*", n) and n not in ("except", "runtime", "atomic")]
+    if not names:
+        return True
+
+    def used_in(srcs: Dict[str, str]) -> bool:
+        return any(not m.startswith("HC.Extracted") and re.search(r"\b" + re.escape(n) + r"\b", src) for n in names for m, src in srcs.items())
+    if used_in(closure):
+        return True
+    if used_in(everything):
+        return False           # the definition exists for other properties' models only
+    return True                # nobody refers to it by name: a shape assertion without a registered owner - be conservative
+
+
+def run_extractor(ctx: Ctx, wanted: Optional[List[str]] = None, modules: Optional[List[str]] = None) -> None:
     p = subprocess.run([sys.executable, str(VERIF / "tools" / "extract.py"), "--repo", str(REPO)],
                        stdout=subprocess.PIPE, stderr=subprocess.STDOUT, timeout=120)
     out = p.stdout.decode()
     if p.returncode != 0:
         fails = [l for l in out.splitlines() if l.startswith("EXTRACT-FAIL")]
+        closure = _lean_closure(list(modules or []) + [f"Driver.Main_{ctx.pid}"])
+        everything = _all_lean_sources()
+        ignored = []
         for line in fails:
-            m = re.match(r"EXTRACT-FAIL \[(\w+)\]", line)
-            if wanted is None or m is None or m.group(1) in wanted:
-                ctx.tie_broken.append({"kind": "extractor", "what": line})
+            m = re.match(r"EXTRACT-FAIL \[(\w+)\]\s*([^:]*):", line)
+            tag, item = (m.group(1), m.group(2)) if m else (None, "")
+            if wanted is not None and tag is not None and tag not in wanted:
+                continue
+            if m is not None and modules is not None and not extractor_item_relevant(ctx.pid, item, closure, everything):
+                ignored.append(line[:200])
+                continue
+            ctx.tie_broken.append({"kind": "extractor", "what": line})
+        if ignored:
+            ctx.extra["extractor_failures_of_other_properties"] = ignored[:10]
         if not fails:
             ctx.tie_broken.append({"kind": "extractor", "what": out[-800:]})
     ctx.extra["extractor"] = [l for l in out.splitlines() if l.startswith("EXTRACT")][:40]
@@ -220,13 +279,14 @@ def grep_forbidden() -> List[str]:
 def lean_build_and_audit(ctx: Ctx, modules: List[str], extracted: Optional[List[str]] = None) -> None:
     """Build the property's theorem modules and the driver; audit axioms of every public theorem."""
     with LeanLock():
-        run_extractor(ctx, extracted)
-        targets = modules + ["hcdriver"]
+        run_extractor(ctx, extracted, modules)
+        drv = f"hcdriver_{ctx.pid}" if (LEAN / "Driver" / f"Main_{ctx.pid}.lean").exists() else "hcdriver"
+        targets = modules + [drv]
         t = time.time()
         p = subprocess.run(["lake", "build"] + targets, cwd=LEAN, stdout=subprocess.PIPE, stderr=subprocess.STDOUT, timeout=3000)
         out = p.stdout.decode()
         ctx.extra["lake_build_s"] = round(time.time() - t, 1)
-        exe = LEAN / ".lake" / "build" / "bin" / "hcdriver"
+        exe = LEAN / ".lake" / "build" / "bin" / drv
         if p.returncode != 0:
             failed = sorted(set(re.findall(r"^- (\S+)$", out, re.M)))
             errs = re.findall(r"^error: (HC/\S+?\.lean):(\d+):\d+: (.*)$", out, re.M)
@@ -235,10 +295,10 @@ def lean_build_and_audit(ctx: Ctx, modules: List[str], extracted: Optional[List[
                 ctx.tie_broken.append({"kind": "lean-build", "module": mod, "errors": where or [out[-600:]],
                                        "theorem": _enclosing_theorem(errs, mod)})
             # is the driver still usable?  only if it was (re)built successfully
-            drv_ok = not any(m.startswith("Driver") or m == "hcdriver" for m in failed) and exe.exists()
+            drv_ok = not any(m.startswith("Driver") or m == drv for m in failed) and exe.exists()
             # a driver built from a model whose theorems fail is still the *model*; keep it for the search
             if drv_ok:
-                p2 = subprocess.run(["lake", "build", "hcdriver"], cwd=LEAN, stdout=subprocess.PIPE, stderr=subprocess.STDOUT, timeout=3000)
+                p2 = subprocess.run(["lake", "build", drv], cwd=LEAN, stdout=subprocess.PIPE, stderr=subprocess.STDOUT, timeout=3000)
                 drv_ok = p2.returncode == 0
             ctx.driver = Driver(exe) if drv_ok else None
         else:
@@ -390,7 +450,7 @@ def write_evidence(ctx: Ctx, spec: dict, known_seen: dict, nviol: int) -> None:
     cov: Dict[str, Any] = {
         "obligations": ctx.obligations,
         "discharged": ctx.discharged,
-        "checker_cmd": f"cd {LEAN} && lake build {' '.join(spec['modules'])} hcdriver && lake env lean <generated #print axioms file>",
+        "checker_cmd": f"cd {LEAN} && lake build {' '.join(spec['modules'])} hcdriver_{ctx.pid} && lake env lean <generated #print axioms file>",
         "trusted_base": TRUSTED_BASE_COMMON + spec.get("trusted", []),
         "theorems": ctx.theorems,
         "partial": spec.get("partial", []),
